@@ -305,7 +305,7 @@ def _diagnose(out, nlines):
     return -1, "TLC error: " + out[-1500:]
 
 
-def validate_traces(pid, module, cfg_body, tracefile, constants=None, nchunks=TRACE_CHUNKS, max_violations=8, timeout=1800):
+def validate_traces(pid, module, cfg_body, tracefile, constants=None, nchunks=TRACE_CHUNKS, max_violations=8, timeout=1800, max_soft=200):
     """Validate every run of an NDJSON trace file against Trace_<module>.  Returns
     dict(runs, events, rejected=[{run:[events], at:int, reason:str}])."""
     wd = workdir(pid)
@@ -331,7 +331,7 @@ def validate_traces(pid, module, cfg_body, tracefile, constants=None, nchunks=TR
             rc, out = _validate_file(pid, module, cfg, cur_path, idx, timeout)
             if rc == -9:
                 return ("timeout", rejected)
-            rejected.extend(_soft(out, remaining)[:200])
+            rejected.extend(_soft(out, remaining)[:max_soft])
             d = _diagnose(out, n)
             if d is None:
                 break
